@@ -193,6 +193,39 @@ Example C10_survives_example :
   stored_since H 1 h = false /\ tagged_since H 2 6 h = false.
 Proof. vm_compute. repeat split; reflexivity. Qed.
 
+(* The API layer (Model expand / runa): a call of the Store is a list of primitives that depends
+   on the media type and on the decodability of the content -- a manifest-typed blob whose
+   bytes do not decode is stored, found unindexable and removed again by Push, and refused
+   by Tag.  "The directory can be opened again" in full: after ANY history of completed and
+   interrupted calls and ANY cut of ANY call, loadIndex succeeds -- index.json parses, every
+   entry names a blob file, and every manifest-typed entry decodes. *)
+Theorem C10_api_reopen_loads :
+  forall (H : list N -> N) (shuffle : nat -> list entry -> list entry),
+    (forall c l e, In e (shuffle c l) <-> In e l) ->
+    forall (mt dec : N -> bool) (h : list acall) (a : api) (k : nat),
+      let s := runa H shuffle src_inplace src_unlink_first true mt dec h init in
+      load_okb mt dec (crash_seq H shuffle src_inplace src_unlink_first true s (expand H mt dec s a) k) = true.
+Proof. exact api_crash_load_ok_src. Qed.
+Print Assumptions C10_api_reopen_loads.
+
+(* ... and the cut is a crash state of one primitive of the call's expansion, recoverable between
+   the quiescent states around it (all earlier theorems apply to histories of calls). *)
+Theorem C10_api_crash_safe :
+  forall (H : list N -> N) (shuffle : nat -> list entry -> list entry),
+    (forall c l e, In e (shuffle c l) <-> In e l) ->
+    forall (mt dec : N -> bool) (h : list acall) (a : api) (k : nat),
+      let s := runa H shuffle src_inplace src_unlink_first true mt dec h init in
+      let os := expand H mt dec s a in
+      let fsk := crash_seq H shuffle src_inplace src_unlink_first true s os k in
+      (exists pre o post,
+         os = pre ++ o :: post /\
+         let sj := run H shuffle src_inplace src_unlink_first true pre s in
+         Recoverable H (sfs sj) fsk (sfs (run_op H shuffle src_inplace src_unlink_first true sj o))) \/
+      (fsk = sfs (run H shuffle src_inplace src_unlink_first true os s) /\
+       layout_ok fsk /\ blob_ok H fsk /\ index_ok fsk).
+Proof. exact api_crash_safe_src. Qed.
+Print Assumptions C10_api_crash_safe.
+
 (* Nothing that a reader looks at is ever written in place: every create / truncate /
    write / chmod micro-step of every operation targets a temporary (ingest/<d>_<rnd> or
    index.json.tmp<rnd>); oci-layout, index.json and blobs/ change by rename and unlink
